@@ -169,6 +169,13 @@ class FractionalPhase(Longitude):
             angle = angle["frac"]
         return super().__new__(cls, angle, unit=unit, wrap_angle=wrap_angle, **kwargs)
 
+    def __array_ufunc__(self, function, method, *inputs, **kwargs):
+        # With a two-part Phase among the operands (e.g. ``phase.frac + phase``),
+        # let the Phase handle the operation so that no precision is lost.
+        if any(isinstance(x, Phase) for x in inputs + tuple(kwargs.get("out") or ())):
+            return NotImplemented
+        return super().__array_ufunc__(function, method, *inputs, **kwargs)
+
 
 def check_imaginary(a):
     """Check whether a value is purely imaginary or purely real.
